@@ -117,6 +117,48 @@ impl Backoff {
     }
 }
 
+/// Verification hooks (compiled only with `--cfg p2panda_p2panda_verif`): read-only accessors.
+#[cfg(p2panda_p2panda_verif)]
+impl Backoff {
+    /// Current backoff delay (what `sleep` would wait).
+    pub fn verif_value(&self) -> Duration {
+        self.value
+    }
+
+    /// Waiting time after which the next `increment` resets the backoff.
+    pub fn verif_reset_after(&self) -> Duration {
+        self.reset_after
+    }
+
+    /// Time elapsed since the last reset.
+    pub fn verif_since_last_reset(&self) -> Duration {
+        self.last_reset_at.elapsed()
+    }
+}
+
+/// Verification hook (compiled only with `--cfg p2panda_p2panda_verif`): constructor for custom
+/// configurations (fields are private, only `Default` exists otherwise).
+#[cfg(p2panda_p2panda_verif)]
+impl Config {
+    pub fn verif_new(
+        initial_value: Duration,
+        min_increment: Duration,
+        max_increment: Duration,
+        max_value: Duration,
+        min_reset: Duration,
+        max_reset: Duration,
+    ) -> Self {
+        Self {
+            initial_value,
+            min_increment,
+            max_increment,
+            max_value,
+            min_reset,
+            max_reset,
+        }
+    }
+}
+
 #[cfg(test)]
 mod tests {
     use std::time::Duration;
